@@ -2,6 +2,7 @@
 package c12
 
 import (
+	"encoding/json"
 	"fmt"
 	"os"
 	"strings"
@@ -9,11 +10,13 @@ import (
 	"time"
 
 	"github.com/elnosh/gonuts/cashu"
+	"github.com/elnosh/gonuts/cashu/nuts/nut03"
 	"github.com/elnosh/gonuts/cashu/nuts/nut05"
 	"github.com/elnosh/gonuts/cashu/nuts/nut10"
 	"github.com/elnosh/gonuts/cashu/nuts/nut11"
 	"pgregory.net/rapid"
 
+	"verif/harness/httpx"
 	"verif/harness/lnmodel"
 	"verif/harness/lockgen"
 	"verif/harness/rec"
@@ -93,8 +96,14 @@ func propDirect(t *rapid.T) {
 	proof := cashu.Proof{Amount: 1, Id: "00c12c12c12c12c1", Secret: secret, C: "02" + strings.Repeat("11", 32), Witness: witness}
 	rec.Eval()
 	ns, derr := nut10.DeserializeSecret(secret)
-	if derr != nil {
-		t.Fatalf("generator produced a secret nut10 cannot parse: %v", derr)
+	if c.Form != "" {
+		rec.Class("direct_secret_form=" + c.Form)
+	}
+	if derr != nil || ns.Kind != nut10.P2PK {
+		// every generated secret is the JSON of a P2PK secret, in whatever spelling: a parser that does not see the lock
+		// lets the mint treat the proof as a plain one
+		violate(t, "direct|lock_not_recognised|form="+c.Form, "DeserializeSecret: kind %v err %v for secret %q", ns.Kind, derr, secret)
+		return
 	}
 	var err error
 	var pv any
@@ -179,8 +188,25 @@ func canonicalElems(c lockgen.Config) ([]lockgen.SigElem, bool) {
 }
 
 func propSwapMelt(t *rapid.T) {
-	w := world.New(t, world.Config{CaseSeed: rapid.Uint64().Draw(t, "case_seed"), SeedIdx: rapid.IntRange(0, 5).Draw(t, "mint_seed"), FeeMode: lnmodel.FeeZero})
+	// one case in three sends the swap through the HTTP handler (with its response cache) instead of calling Mint.Swap
+	viaHTTP := rapid.IntRange(0, 2).Draw(t, "via_http") == 0
+	w := world.New(t, world.Config{CaseSeed: rapid.Uint64().Draw(t, "case_seed"), SeedIdx: rapid.IntRange(0, 5).Draw(t, "mint_seed"), FeeMode: lnmodel.FeeZero, WithServer: viaHTTP})
 	defer w.Close()
+	swap := func(inputs cashu.Proofs, msgs cashu.BlindedMessages) error {
+		if !viaHTTP {
+			_, err := w.Mint.Swap(inputs, msgs)
+			return err
+		}
+		body, _ := json.Marshal(nut03.PostSwapRequest{Inputs: inputs, Outputs: msgs})
+		r := httpx.Do(w.Handler(), "POST", "/v1/swap", body, "application/json")
+		if r.Panic != nil {
+			violate(t, "e2e|http_swap_panic", "%v\n%s", r.Panic, r.Stack[:min(len(r.Stack), 1200)])
+		}
+		if r.Status == 200 {
+			return nil
+		}
+		return fmt.Errorf("HTTP %d %s", r.Status, r.Body)
+	}
 	condMode := rapid.SampledFrom([]string{"independent", "independent", "same", "same", "same_mixed_flags", "same_other_lock_key", "canonical_sig_all"}).Draw(t, "conditions")
 	// canonical_sig_all: a homogeneous SIG_ALL request exactly as the library's helpers would build it - the case for
 	// which the statement promises acceptance (by swap; refusal by melt, which must leave the inputs swappable)
@@ -395,10 +421,41 @@ func propSwapMelt(t *rapid.T) {
 		bs = append(bs, m.B_)
 		ows = append(ows, m.Witness)
 	}
-	_, err = w.Mint.Swap(inputs, msgs)
+	err = swap(inputs, msgs)
 	accepted := err == nil
 	anySA, necSA, whySA := ref.EvalSwapSigAll(secrets, bs, ows, lockgen.Verify)
 	rec.Class("e2e_outputs=" + outMode)
+	if viaHTTP {
+		rec.Class("e2e_swap_via_http")
+	}
+	if accepted && viaHTTP {
+		// the same inputs and outputs once more with other witnesses: whoever sends this does not hold the keys, and
+		// the inputs are spent - nothing but a refusal is right, whatever the handler remembers of the first request
+		again := append(cashu.Proofs{}, inputs...)
+		how := rapid.SampledFrom([]string{"witness_dropped", "witness_by_foreign_key", "witness_empty_object"}).Draw(t, "replay_witness")
+		for i := range again {
+			if ref.ParseLock(again[i].Secret).IsLock {
+				switch how {
+				case "witness_dropped":
+					again[i].Witness = ""
+				case "witness_by_foreign_key":
+					again[i].Witness = lockgen.WitnessJSON("object", []string{lockgen.Sign(lockgen.Foreign0, []byte(again[i].Secret), 0)}, "", false)
+				case "witness_empty_object":
+					again[i].Witness = "{}"
+				}
+			}
+		}
+		changed := false
+		for i := range again {
+			changed = changed || again[i].Witness != inputs[i].Witness
+		}
+		if changed {
+			rec.Class("e2e_http_replay_" + how)
+			if err2 := swap(again, msgs); err2 == nil {
+				violate(t, "e2e|http_replay_with_other_witness_accepted|"+how, "the swap of %v was accepted, then the same inputs and outputs with %s were answered 200 again", secrets, how)
+			}
+		}
+	}
 	if accepted && !allNec && !anySilent {
 		violate(t, "e2e|swap_accepted_without_input_condition", "secrets %v witnesses %v", secrets, witnesses(inputs))
 	}
